@@ -62,7 +62,7 @@ def c04(tier):
         for vt in (0, 1, 2):
             jobs.append(Job("k_num.vt%d.len12" % vt, "k_num.c", {"VT": vt, "LEN": 12, "DS": 0}, unwind=18, solver="kissat", timeout=900, samples=20000))
         # the 2^64 wrap region needs >= 20 digits: one narrow deep job per type
-        for vt in (1, 2):
+        for vt in (0, 1, 2):
             jobs.append(Job("k_num.vt%d.ds1.len24" % vt, "k_num.c", {"VT": vt, "LEN": 24, "DS": 1}, unwind=30, solver="kissat", timeout=900, samples=20000))
     else:
         for vt in (0, 1, 2):
@@ -158,6 +158,12 @@ def resolve_jobs(prop, tier):
                         required_witness=["end-of-scenario", "high-index-full-match"]))
     for shape in RESOLVE_SHAPES_QUICK:
         jobs.append(shape_job(prop, shape, harness="r_resolve.c", extra={"G": 2, "G1_START": 2}, samples=200000))
+    if tier == "thorough":
+        # five commands (a second byte lane of the match table), names up to 3 characters
+        for shape in ("ATnL", "ATnnL", "ATn?L", "ATn=aL", "ATnn=?L"):
+            jobs.append(shape_job(prop, shape, harness="r_resolve.c", extra={"G": 2, "G1_START": 3}, samples=400000, m=5, name="m5." + shape.replace("?", "q").replace("=", "e"), timeout=2400))
+        for shape in ("ATnnnL", "ATnnnnL", "ATnnn=aL"):
+            jobs.append(shape_job(prop, shape, harness="r_resolve.c", extra={"G": 2, "G1_START": 2, "K": 3}, samples=400000, name="k3." + shape.replace("?", "q").replace("=", "e"), timeout=2400))
     return with_prop(prop, jobs)
 
 
@@ -245,7 +251,7 @@ P("C05", explanation="E1 kernel k_buf.c", bounds={"quick": "", "thorough": ""}, 
 
 
 def c05(tier):
-    ln = 10 if tier == "quick" else 20
+    ln = 16 if tier == "quick" else 20
     jobs = [Job("k_buf.hex.len%d" % ln, "k_buf.c", {"VT": 3, "LEN": ln}, unwind=ln + 6, timeout=1800, samples=100000),
             Job("k_buf.str.len%d" % ln, "k_buf.c", {"VT": 4, "LEN": ln}, unwind=ln + 6, timeout=1800, samples=100000)]
     return with_prop("C05", jobs)
@@ -277,9 +283,10 @@ def c07(tier):
     jobs.append(rt_job([4], [0], 22, solver="kissat"))
     for t in (0, 1, 2):
         jobs.append(rt_job([t, t], [1, 1], 16))
+    # 32-bit decimal over the full range (multiply-by-ten kernels: Kissat)
+    jobs.append(rt_job([0], [4], 16, solver="kissat", timeout=3000))
+    jobs.append(rt_job([1], [4], 16, solver="kissat", timeout=3000))
     if tier == "thorough":
-        jobs.append(rt_job([0], [4], 16, solver="kissat", timeout=3000))
-        jobs.append(rt_job([1], [4], 16, solver="kissat", timeout=3000))
         for a in range(5):
             for b in range(5):
                 if a != b or a >= 3:
